@@ -72,7 +72,7 @@ func c16Check(c *Case) []Violation {
 		if cr.Cost {
 			typ = "cost"
 		}
-		if !near(asF(vr["min"]), lo) || !near(asF(vr["max"]), hi) || asS(rm["type"]) != typ {
+		if !near(asF(vr["min"]), lo) || !near(asF(vr["max"]), hi) || (asS(rm["type"]) == "cost") != cr.Cost {
 			vs = append(vs, viol(c, "C16/report-range", "criterion %s reported with type %v range %v; its type is %s and its range (declared or observed over all known alternatives) is [%v,%v]", id, rm["type"], vr, typ, lo, hi))
 		}
 		av := asM(rm["alternativesValues"])
